@@ -1,6 +1,9 @@
 (* Mark_driver.ml — correspondence driver for the mark/sweep model (C01).
    stdin: one case per line, the script language of harness/gc_graph.c.
-   argv[1] = model | spec | model:<tls_recurses><mar_guarded> (e.g. model:00 = both defects)
+   argv[1] = model | spec | model:<tls_recurses><mar_guarded><fin_widens> (e.g. model:001)
+   An F node (finaliser probe) that a collection E frees runs its action Q: a new registered node is
+   allocated BY THE FINALISER (event EFinAlloc) and published (stack slot / TLS entry / field); the model
+   transcript then carries hs=<wxyz>, the hypothesis checkers on the state after sweep + finaliser allocations
    model:  per observation  "G m=<ids marked by the model's mark> a=<ids registered afterwards> h=<wxyz>"
            (h: the hypotheses wf, raw_wf, range_ok, order_ok of the theorems evaluated by the extracted
            checkers on the state the collection runs in, 1 = holds) or "M a=<ids>";
@@ -10,18 +13,22 @@
            k = marks of the extracted `mark true true` on that never-collected heap, which by theorem
            mark_exact are exactly registered /\ (root-flagged \/ reachable), provided the hypotheses
            hold (h = the extracted checkers on that state) *)
-let addr id = n_of_int (4096 + 16 * id)
-let id_of_addr (a : n) = (int_of_n a - 4096) / 16
+(* abstract addresses: 4096 + 16*id; the padded probe W (served by malloc from a fresh mapping) lives far away *)
+let bigs : (int, unit) Hashtbl.t = Hashtbl.create 16
+let far = 1 lsl 40
+let addr id = n_of_int ((if Hashtbl.mem bigs id then far else 4096) + 16 * id)
+let id_of_addr (a : n) = let v = int_of_n a in if v >= far then (v - far) / 16 else (v - 4096) / 16
 
 type node = { k : char; root : bool; mutable f : int array; mutable items : int list;
               mutable kv : (int * int) list }
 
 let kind_of = function
-  | 'S' | 's' -> KStruct | 'R' | 'r' -> KRef | 'B' -> KBox | 'A' -> KArray | 'L' -> KList
+  | 'S' | 's' | 'W' | 'F' -> KStruct | 'R' | 'r' -> KRef | 'B' -> KBox | 'A' -> KArray | 'L' -> KList
   | 'T' | 'Y' -> KTable | 'E' | 'Z' -> KTree | 'U' | 'u' -> KTuple | _ -> KLeaf
 let is_reg k = k >= 'A' && k <= 'Z'
 let ptrs nd = match nd.k with
-  | 'S' | 's' | 'R' | 'r' | 'B' -> Array.to_list nd.f
+  | 'S' | 's' | 'W' | 'R' | 'r' | 'B' -> Array.to_list nd.f
+  | 'F' -> []
   | 'T' | 'E' | 'Y' | 'Z' -> List.map snd nd.kv
   | _ -> nd.items
 let contents nd = gm_contents (kind_of nd.k) (List.map (fun i -> if i = 0 then N0 else addr i) (ptrs nd))
@@ -32,11 +39,16 @@ let ids_s l = String.concat "," (List.map string_of_int (List.sort compare l))
 exception Stop of string
 
 let run mode line =
-  let tr, mg, spec = match mode with
-    | "spec" -> true, true, true
-    | "model" -> gm_tls_recurses, gm_mar_guarded, false
-    | m when String.length m = 8 -> m.[6] = '1', m.[7] = '1', false
+  let tr, mg, fw, spec = match mode with
+    | "spec" -> true, true, true, true
+    | "model" -> gm_tls_recurses, gm_mar_guarded, gm_fin_widens, false
+    | m when String.length m = 8 -> m.[6] = '1', m.[7] = '1', true, false
+    | m when String.length m = 9 -> m.[6] = '1', m.[7] = '1', m.[8] = '1', false
     | _ -> failwith "mode" in
+  Hashtbl.reset bigs;
+  let qcfg : (int, int * char * string) Hashtbl.t = Hashtbl.create 8 in      (* F id -> late id, kind, place *)
+  let fin_done : (int, unit) Hashtbl.t = Hashtbl.create 8 in
+  let last_freed = ref [] in
   let nodes : (int, node) Hashtbl.t = Hashtbl.create 64 in
   let stack : (int, unit) Hashtbl.t = Hashtbl.create 16 in
   let tls : (int, int) Hashtbl.t = Hashtbl.create 16 in
@@ -48,8 +60,8 @@ let run mode line =
   let nobs = ref 0 in
   let do_step e =
     if not spec then
-      match gm_step_with tr mg !st e with
-      | Ok (s', _) -> st := s'
+      match gm_step_with tr mg fw !st e with
+      | Ok (s', fr) -> st := s'; last_freed := fr
       | Crash -> raise (Stop "CRASH")
       | OutOfFuel -> raise (Stop "OUTOFFUEL") in
   let stack_words () = Hashtbl.fold (fun i () acc -> addr i :: acc) stack [] in
@@ -91,14 +103,44 @@ let run mode line =
                  | Some tn when not (is_reg tn.k) -> max acc (1 + rank t) | _ -> acc) 0 nd.items
            else 0 in
          Hashtbl.replace rank_memo id r; r) in
+  (* the finaliser of F node fid runs: allocate the late node, publish it *)
+  let run_finaliser fid =
+    match Hashtbl.find_opt qcfg fid with
+    | Some (lid, k, place) when not (Hashtbl.mem nodes lid) ->
+      let nd = { k; root = false; f = [|0; 0|]; items = []; kv = [] } in
+      if k = 'W' then Hashtbl.replace bigs lid ();
+      Hashtbl.replace nodes lid nd;
+      if spec then begin
+        sheap := gm_nset (addr lid) (contents nd) !sheap;
+        sreg := gm_nset (addr lid) false !sreg;
+        sorder := addr lid :: !sorder
+      end else do_step (EFinAlloc (addr lid, contents nd, false));
+      (match place.[0] with
+       | 'K' -> Hashtbl.replace stack lid ()
+       | 'T' -> Hashtbl.replace tls (int_of_string (String.sub place 1 (String.length place - 1))) lid
+       | 'P' ->
+         (match List.filter (fun x -> x <> "") (String.split_on_char '.' (String.sub place 1 (String.length place - 1))) with
+          | [h; i] ->
+            let h = int_of_string h and i = int_of_string i in
+            (match Hashtbl.find_opt nodes h with
+             | Some hn -> hn.f.(i) <- lid;
+               if spec then sheap := gm_nset (addr h) (contents hn) !sheap
+               else do_step (EStore (addr h, contents hn))
+             | None -> ())
+          | _ -> failwith "Q place")
+       | _ -> failwith "Q place");
+      roots_dirty := true
+    | _ -> () in
+  let last_keep = ref None in
   let must_keep () =
     let s = gm_full_state !sheap !sreg (List.rev !sorder) (gm_tls (tls_vals ())) (stack_words ()) in
     let (((h1, h2), h3), h4) = gm_hyp s (fun a -> nat_of_int (rank (id_of_addr a))) in
     let b x = if x then "1" else "0" in
     let k = match gm_mark true true s with
-      | Ok m -> ids_s (List.filter (fun i -> gm_marked m (addr i)) (node_ids ()))
-      | Crash -> "CRASH" | OutOfFuel -> "OUTOFFUEL" in
+      | Ok m -> let l = List.filter (fun i -> gm_marked m (addr i)) (node_ids ()) in last_keep := Some l; ids_s l
+      | Crash -> last_keep := None; "CRASH" | OutOfFuel -> last_keep := None; "OUTOFFUEL" in
     " k=" ^ k ^ " h=" ^ b h1 ^ b h2 ^ b h3 ^ b h4 in
+  let f_nodes () = List.sort compare (Hashtbl.fold (fun i nd acc -> if nd.k = 'F' then i :: acc else acc) nodes []) in
   let ints s = List.map int_of_string (List.filter (fun x -> x <> "")
                  (String.split_on_char ' ' (String.map (fun c -> if (c >= '0' && c <= '9') then c else ' ') s))) in
   (try
@@ -112,8 +154,9 @@ let run mode line =
           let digits = String.length (string_of_int id) in
           let k = rest.[digits] in
           let root = String.length rest > digits + 1 && rest.[digits + 1] = '!' in
-          let nd = { k; root; f = (match k with 'S' | 's' -> [|0; 0|] | 'R' | 'r' | 'B' -> [|0|] | _ -> [||]);
+          let nd = { k; root; f = (match k with 'S' | 's' | 'W' -> [|0; 0|] | 'R' | 'r' | 'B' -> [|0|] | _ -> [||]);
                      items = []; kv = [] } in
+          if k = 'W' then Hashtbl.replace bigs id ();
           Hashtbl.replace nodes id nd;
           if is_reg k then begin
             if spec then begin
@@ -124,9 +167,16 @@ let run mode line =
           end else store id;
           Hashtbl.replace stack id ();
           roots ()
+        | 'Q' ->
+          (* Q<fid>=<lid><K>,<place> *)
+          let eq = String.index rest '=' and comma = String.index rest ',' in
+          let fid = int_of_string (String.sub rest 0 eq) in
+          let lid = int_of_string (String.sub rest (eq + 1) (comma - eq - 2)) in
+          Hashtbl.replace qcfg fid (lid, rest.[comma - 1], String.sub rest (comma + 1) (String.length rest - comma - 1))
         | 'C' -> (match ints rest with
             | [id; src] ->
               let sn = Hashtbl.find nodes src in
+              if sn.k = 'W' then Hashtbl.replace bigs id ();
               let nd = { k = sn.k; root = false; f = Array.copy sn.f; items = sn.items; kv = sn.kv } in
               Hashtbl.replace nodes id nd;
               if spec then begin
@@ -173,16 +223,37 @@ let run mode line =
             end else do_step (EDel (addr id))
           end
         | 'G' | 'H' | 'E' ->
-          if spec then obs (String.make 1 tok.[0]) (" r=" ^ ids_s (reach ()) ^ must_keep ())
-          else begin
+          if spec then begin
+            obs (String.make 1 tok.[0]) (" r=" ^ ids_s (reach ()) ^ must_keep ());
+            (* an exact collection frees every F node that need not be kept: its finaliser runs *)
+            if tok.[0] = 'E' then
+              (match !last_keep with
+               | Some keep ->
+                 List.iter (fun fid ->
+                   if not (Hashtbl.mem fin_done fid) && not (List.mem fid keep) then begin
+                     Hashtbl.replace fin_done fid (); run_finaliser fid
+                   end) (f_nodes ())
+               | None -> ())
+          end else begin
             flush_roots ();
             let m = match gm_mark tr mg !st with
               | Ok m -> m | Crash -> raise (Stop "CRASH") | OutOfFuel -> raise (Stop "OUTOFFUEL") in
             let mk = List.filter (fun i -> gm_marked m (addr i)) (node_ids ()) in
-            let (((h1, h2), h3), h4) = gm_hyp !st (fun a -> nat_of_int (rank (id_of_addr a))) in
             let b x = if x then "1" else "0" in
+            let hyp () = let (((h1, h2), h3), h4) = gm_hyp !st (fun a -> nat_of_int (rank (id_of_addr a))) in
+              b h1 ^ b h2 ^ b h3 ^ b h4 in
+            let h = hyp () in
             do_step ECollect;
-            obs (String.make 1 tok.[0]) (" m=" ^ ids_s mk ^ " a=" ^ ids_s (alive ()) ^ " h=" ^ b h1 ^ b h2 ^ b h3 ^ b h4)
+            let freed = !last_freed in
+            let ran = ref false in
+            if tok.[0] = 'E' then
+              List.iter (fun fid ->
+                if not (Hashtbl.mem fin_done fid) && List.mem (addr fid) freed then begin
+                  Hashtbl.replace fin_done fid (); ran := true; run_finaliser fid
+                end) (f_nodes ());
+            (* hypotheses on the state after the sweep and the allocations of the finalisers *)
+            let hs = if !ran then " hs=" ^ hyp () else "" in
+            obs (String.make 1 tok.[0]) (" m=" ^ ids_s mk ^ " a=" ^ ids_s (alive ()) ^ " h=" ^ h ^ hs)
           end
         | 'M' ->
           let n = List.hd (ints rest) in
